@@ -85,6 +85,32 @@ def run(ck):
             ck.violation("streams 0 and 1 of one file were started from the same IV (cmode %d, T=%d)" % (c.cm, c.T), rep)
         if len(ck.cov["samples"]) < 6:
             ck.cov["samples"].append({"cmode": c.cm, "T": c.T, "n": c.n, "class": c.cls, "iv_slots_distinct": True, "streams_0_1_share_iv": shared})
+    # a caller that keeps ONE seed buffer and encrypts several files with it in one process (the driver hands equal seed values to the
+    # library in the same buffer): every file's IV slots must still be the chain of THAT seed
+    hl, hmeta = [], {}
+    for h in range(12 if big else 5):
+        seed, key = rnd_seed(r), rnd_bytes(r, 16)
+        ops = []
+        for j in range(r.randrange(2, 4)):
+            ops.append((r.randrange(1, 5), r.randrange(3), r.choice([2, 3, 4]), rnd_bytes(r, CH + r.randrange(1, 2 * CH))))
+        hl.append("h%d hist %s" % (h, ";".join("enc,%d,%d,%d,%s,%s,%s" % (cm, hm, T, key.hex(), seed.hex(), wv.hexs(p)) for cm, hm, T, p in ops)))
+        hmeta[h] = (seed, ops)
+    ho = wv.run_lines([exe], hl, env=env)
+    for h, (seed, ops) in hmeta.items():
+        parts = ho.get("h%d" % h, "(no output)").split(" ; ")
+        for j, (cm, hm, T, p) in enumerate(ops):
+            ck.cov["evaluations"] += 1
+            head = split_impl(parts[j])[0] if j < len(parts) else "(missing)"
+            chain = [hashlib.sha1(seed).digest()]
+            for k in range(1, T):
+                chain.append(hashlib.sha1(chain[-1]).digest())
+            ok = head.startswith("OK ") and bytes.fromhex(head.split()[1])[48:48 + 20 * T] == b"".join(chain)
+            if not ok:
+                ck.violation("encryption %d of %d in one process with the caller's seed buffer reused: the stored IVs are not the chained SHA-1 of the seed" % (j + 1, len(ops)),
+                             {"class": None, "history": hl[h][:3000], "position": j, "seed": seed.hex(), "implementation": head[:400], "expected_iv_area": b"".join(chain).hex(), "driver_flags": ck.impl_flags,
+                              "replay": "echo '<history>' | harness/drv.cpp built with the flags above against /repo (equal seed values of one history share one buffer)"})
+                break
+    dist["seed-buffer-reused-in-one-process"] = len(hl)
     ck.cov["distinct_nontrivial"] = len(distinct)
     return finish_proof(ck, rule="multi-chunk plaintexts (2..5 chunks of 64 bytes), non-ECB modes, T in {2,3,4,5,16}, every third case with equal plaintext chunks 0 and 1; each encrypted under two seeds. Checked: stored IV slots = chained SHA-1 of the seed and pairwise distinct, IVs and body change with the seed, and whether streams 0 and 1 share their IV (xor of ciphertext chunks vs xor of plaintext chunks in CTR/OFB; equal chunks in CBC/CFB). distinct = distinct (n, cmode, T, class)",
                         assumptions=["known finding K2: all streams start from IV slot 0 (format fixed by C02)"])
